@@ -51,6 +51,7 @@ Import ListNotations.
    td_ccpc  Close(): not called, the four steps of a.close(), waiting for readLoopCloseCh, returned
    td_abpc  Abort(): set flag (lock), awake, wait abortSentCh|200ms, SetReadDeadline(now),
             wait readLoopCloseCh, wait abortSentCh|200ms, returned
+   td_dlpc  the goroutine of Stream.SetReadDeadline: none, armed (waits for readTimeoutCancel or the deadline), ended
    td_cnt   conn.Write attempts after this side closed the conn (saturating at 2)
 
    state fields: td_rl td_wl td_tl (timerLoop exited) td_tf td_cw td_rd td_wr td_ac td_sh td_c1 td_c2 td_ab
@@ -58,7 +59,7 @@ Import ListNotations.
    td_connc (netConn closed by this side) td_rfail/td_wfail (transport fails reads/writes) td_rdl (read
    deadline passed) td_cwl/td_cwlo (closeWriteLoopCh closed / its Once) td_rlc (readLoopCloseCh) td_acc
    (acceptCh) td_abs/td_abso (abortSentCh / its Once) td_awake (awakeWriteLoopCh holds a token) td_lk (a.lock
-   held) td_wsa (willSendAbort) td_tcl (closeAllTimers done) td_sdc (shutdownCompleted) td_panic (a closed channel was closed again)
+   held) td_wsa (willSendAbort) td_tcl (closeAllTimers done) td_sdc (shutdownCompleted) td_dlc (readTimeoutCancel closed) td_panic (a closed channel was closed again)
    td_injd (the environment's injection happened)
    ------------------------------------------------------------------------------------------ *)
 Inductive td_phase := TdPhHs | TdPhEst | TdPhSd.
@@ -75,6 +76,7 @@ Inductive td_acpc := TdAcNone | TdAcWait | TdAcEof | TdAcStream.
 Inductive td_shpc := TdShNone | TdShWait | TdShWoken | TdShNil | TdShErr.
 Inductive td_ccpc := TdCcNone | TdCcCl0 | TdCcCl1 | TdCcCl2 | TdCcCl3 | TdCcWait | TdCcRet.
 Inductive td_abpc := TdAbNone | TdAbFlag | TdAbAwake | TdAbWait1 | TdAbRdl | TdAbWaitRl | TdAbWait2 | TdAbRet.
+Inductive td_dlpc := TdDlNone | TdDlArmed | TdDlDone.
 Inductive td_cnt := TdCnt0 | TdCnt1 | TdCnt2.
 
 Definition td_ast_enc (x : td_ast) (p : positive) : positive :=
@@ -204,6 +206,12 @@ Definition td_abpc_enc (x : td_abpc) (p : positive) : positive :=
   | TdAbWait2 => xI (xI (xO p))
   | TdAbRet => xI (xI (xI p))
   end.
+Definition td_dlpc_enc (x : td_dlpc) (p : positive) : positive :=
+  match x with
+  | TdDlNone => xO (xO p)
+  | TdDlArmed => xO (xI p)
+  | TdDlDone => xI (xO p)
+  end.
 Definition td_cnt_enc (x : td_cnt) (p : positive) : positive :=
   match x with
   | TdCnt0 => xO (xO p)
@@ -224,6 +232,7 @@ Record td_state := mkTd {
   td_c1 : td_ccpc;
   td_c2 : td_ccpc;
   td_ab : td_abpc;
+  td_dl : td_dlpc;
   td_st : td_ast;
   td_cerr : td_err;
   td_rerr : td_err;
@@ -244,78 +253,83 @@ Record td_state := mkTd {
   td_wsa : bool;
   td_tcl : bool;
   td_sdc : bool;
+  td_dlc : bool;
   td_panic : bool;
   td_injd : bool
 }.
 
 Definition td_set_rl (v : td_rlpc) (s : td_state) : td_state :=
-  mkTd v (td_wl s) (td_tl s) (td_tf s) (td_cw s) (td_rd s) (td_wr s) (td_ac s) (td_sh s) (td_c1 s) (td_c2 s) (td_ab s) (td_st s) (td_cerr s) (td_rerr s) (td_pab s) (td_wac s) (td_connc s) (td_rfail s) (td_wfail s) (td_rdl s) (td_cwl s) (td_cwlo s) (td_rlc s) (td_acc s) (td_abs s) (td_abso s) (td_awake s) (td_lk s) (td_wsa s) (td_tcl s) (td_sdc s) (td_panic s) (td_injd s).
+  mkTd v (td_wl s) (td_tl s) (td_tf s) (td_cw s) (td_rd s) (td_wr s) (td_ac s) (td_sh s) (td_c1 s) (td_c2 s) (td_ab s) (td_dl s) (td_st s) (td_cerr s) (td_rerr s) (td_pab s) (td_wac s) (td_connc s) (td_rfail s) (td_wfail s) (td_rdl s) (td_cwl s) (td_cwlo s) (td_rlc s) (td_acc s) (td_abs s) (td_abso s) (td_awake s) (td_lk s) (td_wsa s) (td_tcl s) (td_sdc s) (td_dlc s) (td_panic s) (td_injd s).
 Definition td_set_wl (v : td_wlpc) (s : td_state) : td_state :=
-  mkTd (td_rl s) v (td_tl s) (td_tf s) (td_cw s) (td_rd s) (td_wr s) (td_ac s) (td_sh s) (td_c1 s) (td_c2 s) (td_ab s) (td_st s) (td_cerr s) (td_rerr s) (td_pab s) (td_wac s) (td_connc s) (td_rfail s) (td_wfail s) (td_rdl s) (td_cwl s) (td_cwlo s) (td_rlc s) (td_acc s) (td_abs s) (td_abso s) (td_awake s) (td_lk s) (td_wsa s) (td_tcl s) (td_sdc s) (td_panic s) (td_injd s).
+  mkTd (td_rl s) v (td_tl s) (td_tf s) (td_cw s) (td_rd s) (td_wr s) (td_ac s) (td_sh s) (td_c1 s) (td_c2 s) (td_ab s) (td_dl s) (td_st s) (td_cerr s) (td_rerr s) (td_pab s) (td_wac s) (td_connc s) (td_rfail s) (td_wfail s) (td_rdl s) (td_cwl s) (td_cwlo s) (td_rlc s) (td_acc s) (td_abs s) (td_abso s) (td_awake s) (td_lk s) (td_wsa s) (td_tcl s) (td_sdc s) (td_dlc s) (td_panic s) (td_injd s).
 Definition td_set_tl (v : bool) (s : td_state) : td_state :=
-  mkTd (td_rl s) (td_wl s) v (td_tf s) (td_cw s) (td_rd s) (td_wr s) (td_ac s) (td_sh s) (td_c1 s) (td_c2 s) (td_ab s) (td_st s) (td_cerr s) (td_rerr s) (td_pab s) (td_wac s) (td_connc s) (td_rfail s) (td_wfail s) (td_rdl s) (td_cwl s) (td_cwlo s) (td_rlc s) (td_acc s) (td_abs s) (td_abso s) (td_awake s) (td_lk s) (td_wsa s) (td_tcl s) (td_sdc s) (td_panic s) (td_injd s).
+  mkTd (td_rl s) (td_wl s) v (td_tf s) (td_cw s) (td_rd s) (td_wr s) (td_ac s) (td_sh s) (td_c1 s) (td_c2 s) (td_ab s) (td_dl s) (td_st s) (td_cerr s) (td_rerr s) (td_pab s) (td_wac s) (td_connc s) (td_rfail s) (td_wfail s) (td_rdl s) (td_cwl s) (td_cwlo s) (td_rlc s) (td_acc s) (td_abs s) (td_abso s) (td_awake s) (td_lk s) (td_wsa s) (td_tcl s) (td_sdc s) (td_dlc s) (td_panic s) (td_injd s).
 Definition td_set_tf (v : td_tfpc) (s : td_state) : td_state :=
-  mkTd (td_rl s) (td_wl s) (td_tl s) v (td_cw s) (td_rd s) (td_wr s) (td_ac s) (td_sh s) (td_c1 s) (td_c2 s) (td_ab s) (td_st s) (td_cerr s) (td_rerr s) (td_pab s) (td_wac s) (td_connc s) (td_rfail s) (td_wfail s) (td_rdl s) (td_cwl s) (td_cwlo s) (td_rlc s) (td_acc s) (td_abs s) (td_abso s) (td_awake s) (td_lk s) (td_wsa s) (td_tcl s) (td_sdc s) (td_panic s) (td_injd s).
+  mkTd (td_rl s) (td_wl s) (td_tl s) v (td_cw s) (td_rd s) (td_wr s) (td_ac s) (td_sh s) (td_c1 s) (td_c2 s) (td_ab s) (td_dl s) (td_st s) (td_cerr s) (td_rerr s) (td_pab s) (td_wac s) (td_connc s) (td_rfail s) (td_wfail s) (td_rdl s) (td_cwl s) (td_cwlo s) (td_rlc s) (td_acc s) (td_abs s) (td_abso s) (td_awake s) (td_lk s) (td_wsa s) (td_tcl s) (td_sdc s) (td_dlc s) (td_panic s) (td_injd s).
 Definition td_set_cw (v : td_cwpc) (s : td_state) : td_state :=
-  mkTd (td_rl s) (td_wl s) (td_tl s) (td_tf s) v (td_rd s) (td_wr s) (td_ac s) (td_sh s) (td_c1 s) (td_c2 s) (td_ab s) (td_st s) (td_cerr s) (td_rerr s) (td_pab s) (td_wac s) (td_connc s) (td_rfail s) (td_wfail s) (td_rdl s) (td_cwl s) (td_cwlo s) (td_rlc s) (td_acc s) (td_abs s) (td_abso s) (td_awake s) (td_lk s) (td_wsa s) (td_tcl s) (td_sdc s) (td_panic s) (td_injd s).
+  mkTd (td_rl s) (td_wl s) (td_tl s) (td_tf s) v (td_rd s) (td_wr s) (td_ac s) (td_sh s) (td_c1 s) (td_c2 s) (td_ab s) (td_dl s) (td_st s) (td_cerr s) (td_rerr s) (td_pab s) (td_wac s) (td_connc s) (td_rfail s) (td_wfail s) (td_rdl s) (td_cwl s) (td_cwlo s) (td_rlc s) (td_acc s) (td_abs s) (td_abso s) (td_awake s) (td_lk s) (td_wsa s) (td_tcl s) (td_sdc s) (td_dlc s) (td_panic s) (td_injd s).
 Definition td_set_rd (v : td_rdpc) (s : td_state) : td_state :=
-  mkTd (td_rl s) (td_wl s) (td_tl s) (td_tf s) (td_cw s) v (td_wr s) (td_ac s) (td_sh s) (td_c1 s) (td_c2 s) (td_ab s) (td_st s) (td_cerr s) (td_rerr s) (td_pab s) (td_wac s) (td_connc s) (td_rfail s) (td_wfail s) (td_rdl s) (td_cwl s) (td_cwlo s) (td_rlc s) (td_acc s) (td_abs s) (td_abso s) (td_awake s) (td_lk s) (td_wsa s) (td_tcl s) (td_sdc s) (td_panic s) (td_injd s).
+  mkTd (td_rl s) (td_wl s) (td_tl s) (td_tf s) (td_cw s) v (td_wr s) (td_ac s) (td_sh s) (td_c1 s) (td_c2 s) (td_ab s) (td_dl s) (td_st s) (td_cerr s) (td_rerr s) (td_pab s) (td_wac s) (td_connc s) (td_rfail s) (td_wfail s) (td_rdl s) (td_cwl s) (td_cwlo s) (td_rlc s) (td_acc s) (td_abs s) (td_abso s) (td_awake s) (td_lk s) (td_wsa s) (td_tcl s) (td_sdc s) (td_dlc s) (td_panic s) (td_injd s).
 Definition td_set_wr (v : td_wrpc) (s : td_state) : td_state :=
-  mkTd (td_rl s) (td_wl s) (td_tl s) (td_tf s) (td_cw s) (td_rd s) v (td_ac s) (td_sh s) (td_c1 s) (td_c2 s) (td_ab s) (td_st s) (td_cerr s) (td_rerr s) (td_pab s) (td_wac s) (td_connc s) (td_rfail s) (td_wfail s) (td_rdl s) (td_cwl s) (td_cwlo s) (td_rlc s) (td_acc s) (td_abs s) (td_abso s) (td_awake s) (td_lk s) (td_wsa s) (td_tcl s) (td_sdc s) (td_panic s) (td_injd s).
+  mkTd (td_rl s) (td_wl s) (td_tl s) (td_tf s) (td_cw s) (td_rd s) v (td_ac s) (td_sh s) (td_c1 s) (td_c2 s) (td_ab s) (td_dl s) (td_st s) (td_cerr s) (td_rerr s) (td_pab s) (td_wac s) (td_connc s) (td_rfail s) (td_wfail s) (td_rdl s) (td_cwl s) (td_cwlo s) (td_rlc s) (td_acc s) (td_abs s) (td_abso s) (td_awake s) (td_lk s) (td_wsa s) (td_tcl s) (td_sdc s) (td_dlc s) (td_panic s) (td_injd s).
 Definition td_set_ac (v : td_acpc) (s : td_state) : td_state :=
-  mkTd (td_rl s) (td_wl s) (td_tl s) (td_tf s) (td_cw s) (td_rd s) (td_wr s) v (td_sh s) (td_c1 s) (td_c2 s) (td_ab s) (td_st s) (td_cerr s) (td_rerr s) (td_pab s) (td_wac s) (td_connc s) (td_rfail s) (td_wfail s) (td_rdl s) (td_cwl s) (td_cwlo s) (td_rlc s) (td_acc s) (td_abs s) (td_abso s) (td_awake s) (td_lk s) (td_wsa s) (td_tcl s) (td_sdc s) (td_panic s) (td_injd s).
+  mkTd (td_rl s) (td_wl s) (td_tl s) (td_tf s) (td_cw s) (td_rd s) (td_wr s) v (td_sh s) (td_c1 s) (td_c2 s) (td_ab s) (td_dl s) (td_st s) (td_cerr s) (td_rerr s) (td_pab s) (td_wac s) (td_connc s) (td_rfail s) (td_wfail s) (td_rdl s) (td_cwl s) (td_cwlo s) (td_rlc s) (td_acc s) (td_abs s) (td_abso s) (td_awake s) (td_lk s) (td_wsa s) (td_tcl s) (td_sdc s) (td_dlc s) (td_panic s) (td_injd s).
 Definition td_set_sh (v : td_shpc) (s : td_state) : td_state :=
-  mkTd (td_rl s) (td_wl s) (td_tl s) (td_tf s) (td_cw s) (td_rd s) (td_wr s) (td_ac s) v (td_c1 s) (td_c2 s) (td_ab s) (td_st s) (td_cerr s) (td_rerr s) (td_pab s) (td_wac s) (td_connc s) (td_rfail s) (td_wfail s) (td_rdl s) (td_cwl s) (td_cwlo s) (td_rlc s) (td_acc s) (td_abs s) (td_abso s) (td_awake s) (td_lk s) (td_wsa s) (td_tcl s) (td_sdc s) (td_panic s) (td_injd s).
+  mkTd (td_rl s) (td_wl s) (td_tl s) (td_tf s) (td_cw s) (td_rd s) (td_wr s) (td_ac s) v (td_c1 s) (td_c2 s) (td_ab s) (td_dl s) (td_st s) (td_cerr s) (td_rerr s) (td_pab s) (td_wac s) (td_connc s) (td_rfail s) (td_wfail s) (td_rdl s) (td_cwl s) (td_cwlo s) (td_rlc s) (td_acc s) (td_abs s) (td_abso s) (td_awake s) (td_lk s) (td_wsa s) (td_tcl s) (td_sdc s) (td_dlc s) (td_panic s) (td_injd s).
 Definition td_set_c1 (v : td_ccpc) (s : td_state) : td_state :=
-  mkTd (td_rl s) (td_wl s) (td_tl s) (td_tf s) (td_cw s) (td_rd s) (td_wr s) (td_ac s) (td_sh s) v (td_c2 s) (td_ab s) (td_st s) (td_cerr s) (td_rerr s) (td_pab s) (td_wac s) (td_connc s) (td_rfail s) (td_wfail s) (td_rdl s) (td_cwl s) (td_cwlo s) (td_rlc s) (td_acc s) (td_abs s) (td_abso s) (td_awake s) (td_lk s) (td_wsa s) (td_tcl s) (td_sdc s) (td_panic s) (td_injd s).
+  mkTd (td_rl s) (td_wl s) (td_tl s) (td_tf s) (td_cw s) (td_rd s) (td_wr s) (td_ac s) (td_sh s) v (td_c2 s) (td_ab s) (td_dl s) (td_st s) (td_cerr s) (td_rerr s) (td_pab s) (td_wac s) (td_connc s) (td_rfail s) (td_wfail s) (td_rdl s) (td_cwl s) (td_cwlo s) (td_rlc s) (td_acc s) (td_abs s) (td_abso s) (td_awake s) (td_lk s) (td_wsa s) (td_tcl s) (td_sdc s) (td_dlc s) (td_panic s) (td_injd s).
 Definition td_set_c2 (v : td_ccpc) (s : td_state) : td_state :=
-  mkTd (td_rl s) (td_wl s) (td_tl s) (td_tf s) (td_cw s) (td_rd s) (td_wr s) (td_ac s) (td_sh s) (td_c1 s) v (td_ab s) (td_st s) (td_cerr s) (td_rerr s) (td_pab s) (td_wac s) (td_connc s) (td_rfail s) (td_wfail s) (td_rdl s) (td_cwl s) (td_cwlo s) (td_rlc s) (td_acc s) (td_abs s) (td_abso s) (td_awake s) (td_lk s) (td_wsa s) (td_tcl s) (td_sdc s) (td_panic s) (td_injd s).
+  mkTd (td_rl s) (td_wl s) (td_tl s) (td_tf s) (td_cw s) (td_rd s) (td_wr s) (td_ac s) (td_sh s) (td_c1 s) v (td_ab s) (td_dl s) (td_st s) (td_cerr s) (td_rerr s) (td_pab s) (td_wac s) (td_connc s) (td_rfail s) (td_wfail s) (td_rdl s) (td_cwl s) (td_cwlo s) (td_rlc s) (td_acc s) (td_abs s) (td_abso s) (td_awake s) (td_lk s) (td_wsa s) (td_tcl s) (td_sdc s) (td_dlc s) (td_panic s) (td_injd s).
 Definition td_set_ab (v : td_abpc) (s : td_state) : td_state :=
-  mkTd (td_rl s) (td_wl s) (td_tl s) (td_tf s) (td_cw s) (td_rd s) (td_wr s) (td_ac s) (td_sh s) (td_c1 s) (td_c2 s) v (td_st s) (td_cerr s) (td_rerr s) (td_pab s) (td_wac s) (td_connc s) (td_rfail s) (td_wfail s) (td_rdl s) (td_cwl s) (td_cwlo s) (td_rlc s) (td_acc s) (td_abs s) (td_abso s) (td_awake s) (td_lk s) (td_wsa s) (td_tcl s) (td_sdc s) (td_panic s) (td_injd s).
+  mkTd (td_rl s) (td_wl s) (td_tl s) (td_tf s) (td_cw s) (td_rd s) (td_wr s) (td_ac s) (td_sh s) (td_c1 s) (td_c2 s) v (td_dl s) (td_st s) (td_cerr s) (td_rerr s) (td_pab s) (td_wac s) (td_connc s) (td_rfail s) (td_wfail s) (td_rdl s) (td_cwl s) (td_cwlo s) (td_rlc s) (td_acc s) (td_abs s) (td_abso s) (td_awake s) (td_lk s) (td_wsa s) (td_tcl s) (td_sdc s) (td_dlc s) (td_panic s) (td_injd s).
+Definition td_set_dl (v : td_dlpc) (s : td_state) : td_state :=
+  mkTd (td_rl s) (td_wl s) (td_tl s) (td_tf s) (td_cw s) (td_rd s) (td_wr s) (td_ac s) (td_sh s) (td_c1 s) (td_c2 s) (td_ab s) v (td_st s) (td_cerr s) (td_rerr s) (td_pab s) (td_wac s) (td_connc s) (td_rfail s) (td_wfail s) (td_rdl s) (td_cwl s) (td_cwlo s) (td_rlc s) (td_acc s) (td_abs s) (td_abso s) (td_awake s) (td_lk s) (td_wsa s) (td_tcl s) (td_sdc s) (td_dlc s) (td_panic s) (td_injd s).
 Definition td_set_st (v : td_ast) (s : td_state) : td_state :=
-  mkTd (td_rl s) (td_wl s) (td_tl s) (td_tf s) (td_cw s) (td_rd s) (td_wr s) (td_ac s) (td_sh s) (td_c1 s) (td_c2 s) (td_ab s) v (td_cerr s) (td_rerr s) (td_pab s) (td_wac s) (td_connc s) (td_rfail s) (td_wfail s) (td_rdl s) (td_cwl s) (td_cwlo s) (td_rlc s) (td_acc s) (td_abs s) (td_abso s) (td_awake s) (td_lk s) (td_wsa s) (td_tcl s) (td_sdc s) (td_panic s) (td_injd s).
+  mkTd (td_rl s) (td_wl s) (td_tl s) (td_tf s) (td_cw s) (td_rd s) (td_wr s) (td_ac s) (td_sh s) (td_c1 s) (td_c2 s) (td_ab s) (td_dl s) v (td_cerr s) (td_rerr s) (td_pab s) (td_wac s) (td_connc s) (td_rfail s) (td_wfail s) (td_rdl s) (td_cwl s) (td_cwlo s) (td_rlc s) (td_acc s) (td_abs s) (td_abso s) (td_awake s) (td_lk s) (td_wsa s) (td_tcl s) (td_sdc s) (td_dlc s) (td_panic s) (td_injd s).
 Definition td_set_cerr (v : td_err) (s : td_state) : td_state :=
-  mkTd (td_rl s) (td_wl s) (td_tl s) (td_tf s) (td_cw s) (td_rd s) (td_wr s) (td_ac s) (td_sh s) (td_c1 s) (td_c2 s) (td_ab s) (td_st s) v (td_rerr s) (td_pab s) (td_wac s) (td_connc s) (td_rfail s) (td_wfail s) (td_rdl s) (td_cwl s) (td_cwlo s) (td_rlc s) (td_acc s) (td_abs s) (td_abso s) (td_awake s) (td_lk s) (td_wsa s) (td_tcl s) (td_sdc s) (td_panic s) (td_injd s).
+  mkTd (td_rl s) (td_wl s) (td_tl s) (td_tf s) (td_cw s) (td_rd s) (td_wr s) (td_ac s) (td_sh s) (td_c1 s) (td_c2 s) (td_ab s) (td_dl s) (td_st s) v (td_rerr s) (td_pab s) (td_wac s) (td_connc s) (td_rfail s) (td_wfail s) (td_rdl s) (td_cwl s) (td_cwlo s) (td_rlc s) (td_acc s) (td_abs s) (td_abso s) (td_awake s) (td_lk s) (td_wsa s) (td_tcl s) (td_sdc s) (td_dlc s) (td_panic s) (td_injd s).
 Definition td_set_rerr (v : td_err) (s : td_state) : td_state :=
-  mkTd (td_rl s) (td_wl s) (td_tl s) (td_tf s) (td_cw s) (td_rd s) (td_wr s) (td_ac s) (td_sh s) (td_c1 s) (td_c2 s) (td_ab s) (td_st s) (td_cerr s) v (td_pab s) (td_wac s) (td_connc s) (td_rfail s) (td_wfail s) (td_rdl s) (td_cwl s) (td_cwlo s) (td_rlc s) (td_acc s) (td_abs s) (td_abso s) (td_awake s) (td_lk s) (td_wsa s) (td_tcl s) (td_sdc s) (td_panic s) (td_injd s).
+  mkTd (td_rl s) (td_wl s) (td_tl s) (td_tf s) (td_cw s) (td_rd s) (td_wr s) (td_ac s) (td_sh s) (td_c1 s) (td_c2 s) (td_ab s) (td_dl s) (td_st s) (td_cerr s) v (td_pab s) (td_wac s) (td_connc s) (td_rfail s) (td_wfail s) (td_rdl s) (td_cwl s) (td_cwlo s) (td_rlc s) (td_acc s) (td_abs s) (td_abso s) (td_awake s) (td_lk s) (td_wsa s) (td_tcl s) (td_sdc s) (td_dlc s) (td_panic s) (td_injd s).
 Definition td_set_pab (v : td_err) (s : td_state) : td_state :=
-  mkTd (td_rl s) (td_wl s) (td_tl s) (td_tf s) (td_cw s) (td_rd s) (td_wr s) (td_ac s) (td_sh s) (td_c1 s) (td_c2 s) (td_ab s) (td_st s) (td_cerr s) (td_rerr s) v (td_wac s) (td_connc s) (td_rfail s) (td_wfail s) (td_rdl s) (td_cwl s) (td_cwlo s) (td_rlc s) (td_acc s) (td_abs s) (td_abso s) (td_awake s) (td_lk s) (td_wsa s) (td_tcl s) (td_sdc s) (td_panic s) (td_injd s).
+  mkTd (td_rl s) (td_wl s) (td_tl s) (td_tf s) (td_cw s) (td_rd s) (td_wr s) (td_ac s) (td_sh s) (td_c1 s) (td_c2 s) (td_ab s) (td_dl s) (td_st s) (td_cerr s) (td_rerr s) v (td_wac s) (td_connc s) (td_rfail s) (td_wfail s) (td_rdl s) (td_cwl s) (td_cwlo s) (td_rlc s) (td_acc s) (td_abs s) (td_abso s) (td_awake s) (td_lk s) (td_wsa s) (td_tcl s) (td_sdc s) (td_dlc s) (td_panic s) (td_injd s).
 Definition td_set_wac (v : td_cnt) (s : td_state) : td_state :=
-  mkTd (td_rl s) (td_wl s) (td_tl s) (td_tf s) (td_cw s) (td_rd s) (td_wr s) (td_ac s) (td_sh s) (td_c1 s) (td_c2 s) (td_ab s) (td_st s) (td_cerr s) (td_rerr s) (td_pab s) v (td_connc s) (td_rfail s) (td_wfail s) (td_rdl s) (td_cwl s) (td_cwlo s) (td_rlc s) (td_acc s) (td_abs s) (td_abso s) (td_awake s) (td_lk s) (td_wsa s) (td_tcl s) (td_sdc s) (td_panic s) (td_injd s).
+  mkTd (td_rl s) (td_wl s) (td_tl s) (td_tf s) (td_cw s) (td_rd s) (td_wr s) (td_ac s) (td_sh s) (td_c1 s) (td_c2 s) (td_ab s) (td_dl s) (td_st s) (td_cerr s) (td_rerr s) (td_pab s) v (td_connc s) (td_rfail s) (td_wfail s) (td_rdl s) (td_cwl s) (td_cwlo s) (td_rlc s) (td_acc s) (td_abs s) (td_abso s) (td_awake s) (td_lk s) (td_wsa s) (td_tcl s) (td_sdc s) (td_dlc s) (td_panic s) (td_injd s).
 Definition td_set_connc (v : bool) (s : td_state) : td_state :=
-  mkTd (td_rl s) (td_wl s) (td_tl s) (td_tf s) (td_cw s) (td_rd s) (td_wr s) (td_ac s) (td_sh s) (td_c1 s) (td_c2 s) (td_ab s) (td_st s) (td_cerr s) (td_rerr s) (td_pab s) (td_wac s) v (td_rfail s) (td_wfail s) (td_rdl s) (td_cwl s) (td_cwlo s) (td_rlc s) (td_acc s) (td_abs s) (td_abso s) (td_awake s) (td_lk s) (td_wsa s) (td_tcl s) (td_sdc s) (td_panic s) (td_injd s).
+  mkTd (td_rl s) (td_wl s) (td_tl s) (td_tf s) (td_cw s) (td_rd s) (td_wr s) (td_ac s) (td_sh s) (td_c1 s) (td_c2 s) (td_ab s) (td_dl s) (td_st s) (td_cerr s) (td_rerr s) (td_pab s) (td_wac s) v (td_rfail s) (td_wfail s) (td_rdl s) (td_cwl s) (td_cwlo s) (td_rlc s) (td_acc s) (td_abs s) (td_abso s) (td_awake s) (td_lk s) (td_wsa s) (td_tcl s) (td_sdc s) (td_dlc s) (td_panic s) (td_injd s).
 Definition td_set_rfail (v : bool) (s : td_state) : td_state :=
-  mkTd (td_rl s) (td_wl s) (td_tl s) (td_tf s) (td_cw s) (td_rd s) (td_wr s) (td_ac s) (td_sh s) (td_c1 s) (td_c2 s) (td_ab s) (td_st s) (td_cerr s) (td_rerr s) (td_pab s) (td_wac s) (td_connc s) v (td_wfail s) (td_rdl s) (td_cwl s) (td_cwlo s) (td_rlc s) (td_acc s) (td_abs s) (td_abso s) (td_awake s) (td_lk s) (td_wsa s) (td_tcl s) (td_sdc s) (td_panic s) (td_injd s).
+  mkTd (td_rl s) (td_wl s) (td_tl s) (td_tf s) (td_cw s) (td_rd s) (td_wr s) (td_ac s) (td_sh s) (td_c1 s) (td_c2 s) (td_ab s) (td_dl s) (td_st s) (td_cerr s) (td_rerr s) (td_pab s) (td_wac s) (td_connc s) v (td_wfail s) (td_rdl s) (td_cwl s) (td_cwlo s) (td_rlc s) (td_acc s) (td_abs s) (td_abso s) (td_awake s) (td_lk s) (td_wsa s) (td_tcl s) (td_sdc s) (td_dlc s) (td_panic s) (td_injd s).
 Definition td_set_wfail (v : bool) (s : td_state) : td_state :=
-  mkTd (td_rl s) (td_wl s) (td_tl s) (td_tf s) (td_cw s) (td_rd s) (td_wr s) (td_ac s) (td_sh s) (td_c1 s) (td_c2 s) (td_ab s) (td_st s) (td_cerr s) (td_rerr s) (td_pab s) (td_wac s) (td_connc s) (td_rfail s) v (td_rdl s) (td_cwl s) (td_cwlo s) (td_rlc s) (td_acc s) (td_abs s) (td_abso s) (td_awake s) (td_lk s) (td_wsa s) (td_tcl s) (td_sdc s) (td_panic s) (td_injd s).
+  mkTd (td_rl s) (td_wl s) (td_tl s) (td_tf s) (td_cw s) (td_rd s) (td_wr s) (td_ac s) (td_sh s) (td_c1 s) (td_c2 s) (td_ab s) (td_dl s) (td_st s) (td_cerr s) (td_rerr s) (td_pab s) (td_wac s) (td_connc s) (td_rfail s) v (td_rdl s) (td_cwl s) (td_cwlo s) (td_rlc s) (td_acc s) (td_abs s) (td_abso s) (td_awake s) (td_lk s) (td_wsa s) (td_tcl s) (td_sdc s) (td_dlc s) (td_panic s) (td_injd s).
 Definition td_set_rdl (v : bool) (s : td_state) : td_state :=
-  mkTd (td_rl s) (td_wl s) (td_tl s) (td_tf s) (td_cw s) (td_rd s) (td_wr s) (td_ac s) (td_sh s) (td_c1 s) (td_c2 s) (td_ab s) (td_st s) (td_cerr s) (td_rerr s) (td_pab s) (td_wac s) (td_connc s) (td_rfail s) (td_wfail s) v (td_cwl s) (td_cwlo s) (td_rlc s) (td_acc s) (td_abs s) (td_abso s) (td_awake s) (td_lk s) (td_wsa s) (td_tcl s) (td_sdc s) (td_panic s) (td_injd s).
+  mkTd (td_rl s) (td_wl s) (td_tl s) (td_tf s) (td_cw s) (td_rd s) (td_wr s) (td_ac s) (td_sh s) (td_c1 s) (td_c2 s) (td_ab s) (td_dl s) (td_st s) (td_cerr s) (td_rerr s) (td_pab s) (td_wac s) (td_connc s) (td_rfail s) (td_wfail s) v (td_cwl s) (td_cwlo s) (td_rlc s) (td_acc s) (td_abs s) (td_abso s) (td_awake s) (td_lk s) (td_wsa s) (td_tcl s) (td_sdc s) (td_dlc s) (td_panic s) (td_injd s).
 Definition td_set_cwl (v : bool) (s : td_state) : td_state :=
-  mkTd (td_rl s) (td_wl s) (td_tl s) (td_tf s) (td_cw s) (td_rd s) (td_wr s) (td_ac s) (td_sh s) (td_c1 s) (td_c2 s) (td_ab s) (td_st s) (td_cerr s) (td_rerr s) (td_pab s) (td_wac s) (td_connc s) (td_rfail s) (td_wfail s) (td_rdl s) v (td_cwlo s) (td_rlc s) (td_acc s) (td_abs s) (td_abso s) (td_awake s) (td_lk s) (td_wsa s) (td_tcl s) (td_sdc s) (td_panic s) (td_injd s).
+  mkTd (td_rl s) (td_wl s) (td_tl s) (td_tf s) (td_cw s) (td_rd s) (td_wr s) (td_ac s) (td_sh s) (td_c1 s) (td_c2 s) (td_ab s) (td_dl s) (td_st s) (td_cerr s) (td_rerr s) (td_pab s) (td_wac s) (td_connc s) (td_rfail s) (td_wfail s) (td_rdl s) v (td_cwlo s) (td_rlc s) (td_acc s) (td_abs s) (td_abso s) (td_awake s) (td_lk s) (td_wsa s) (td_tcl s) (td_sdc s) (td_dlc s) (td_panic s) (td_injd s).
 Definition td_set_cwlo (v : bool) (s : td_state) : td_state :=
-  mkTd (td_rl s) (td_wl s) (td_tl s) (td_tf s) (td_cw s) (td_rd s) (td_wr s) (td_ac s) (td_sh s) (td_c1 s) (td_c2 s) (td_ab s) (td_st s) (td_cerr s) (td_rerr s) (td_pab s) (td_wac s) (td_connc s) (td_rfail s) (td_wfail s) (td_rdl s) (td_cwl s) v (td_rlc s) (td_acc s) (td_abs s) (td_abso s) (td_awake s) (td_lk s) (td_wsa s) (td_tcl s) (td_sdc s) (td_panic s) (td_injd s).
+  mkTd (td_rl s) (td_wl s) (td_tl s) (td_tf s) (td_cw s) (td_rd s) (td_wr s) (td_ac s) (td_sh s) (td_c1 s) (td_c2 s) (td_ab s) (td_dl s) (td_st s) (td_cerr s) (td_rerr s) (td_pab s) (td_wac s) (td_connc s) (td_rfail s) (td_wfail s) (td_rdl s) (td_cwl s) v (td_rlc s) (td_acc s) (td_abs s) (td_abso s) (td_awake s) (td_lk s) (td_wsa s) (td_tcl s) (td_sdc s) (td_dlc s) (td_panic s) (td_injd s).
 Definition td_set_rlc (v : bool) (s : td_state) : td_state :=
-  mkTd (td_rl s) (td_wl s) (td_tl s) (td_tf s) (td_cw s) (td_rd s) (td_wr s) (td_ac s) (td_sh s) (td_c1 s) (td_c2 s) (td_ab s) (td_st s) (td_cerr s) (td_rerr s) (td_pab s) (td_wac s) (td_connc s) (td_rfail s) (td_wfail s) (td_rdl s) (td_cwl s) (td_cwlo s) v (td_acc s) (td_abs s) (td_abso s) (td_awake s) (td_lk s) (td_wsa s) (td_tcl s) (td_sdc s) (td_panic s) (td_injd s).
+  mkTd (td_rl s) (td_wl s) (td_tl s) (td_tf s) (td_cw s) (td_rd s) (td_wr s) (td_ac s) (td_sh s) (td_c1 s) (td_c2 s) (td_ab s) (td_dl s) (td_st s) (td_cerr s) (td_rerr s) (td_pab s) (td_wac s) (td_connc s) (td_rfail s) (td_wfail s) (td_rdl s) (td_cwl s) (td_cwlo s) v (td_acc s) (td_abs s) (td_abso s) (td_awake s) (td_lk s) (td_wsa s) (td_tcl s) (td_sdc s) (td_dlc s) (td_panic s) (td_injd s).
 Definition td_set_acc (v : bool) (s : td_state) : td_state :=
-  mkTd (td_rl s) (td_wl s) (td_tl s) (td_tf s) (td_cw s) (td_rd s) (td_wr s) (td_ac s) (td_sh s) (td_c1 s) (td_c2 s) (td_ab s) (td_st s) (td_cerr s) (td_rerr s) (td_pab s) (td_wac s) (td_connc s) (td_rfail s) (td_wfail s) (td_rdl s) (td_cwl s) (td_cwlo s) (td_rlc s) v (td_abs s) (td_abso s) (td_awake s) (td_lk s) (td_wsa s) (td_tcl s) (td_sdc s) (td_panic s) (td_injd s).
+  mkTd (td_rl s) (td_wl s) (td_tl s) (td_tf s) (td_cw s) (td_rd s) (td_wr s) (td_ac s) (td_sh s) (td_c1 s) (td_c2 s) (td_ab s) (td_dl s) (td_st s) (td_cerr s) (td_rerr s) (td_pab s) (td_wac s) (td_connc s) (td_rfail s) (td_wfail s) (td_rdl s) (td_cwl s) (td_cwlo s) (td_rlc s) v (td_abs s) (td_abso s) (td_awake s) (td_lk s) (td_wsa s) (td_tcl s) (td_sdc s) (td_dlc s) (td_panic s) (td_injd s).
 Definition td_set_abs (v : bool) (s : td_state) : td_state :=
-  mkTd (td_rl s) (td_wl s) (td_tl s) (td_tf s) (td_cw s) (td_rd s) (td_wr s) (td_ac s) (td_sh s) (td_c1 s) (td_c2 s) (td_ab s) (td_st s) (td_cerr s) (td_rerr s) (td_pab s) (td_wac s) (td_connc s) (td_rfail s) (td_wfail s) (td_rdl s) (td_cwl s) (td_cwlo s) (td_rlc s) (td_acc s) v (td_abso s) (td_awake s) (td_lk s) (td_wsa s) (td_tcl s) (td_sdc s) (td_panic s) (td_injd s).
+  mkTd (td_rl s) (td_wl s) (td_tl s) (td_tf s) (td_cw s) (td_rd s) (td_wr s) (td_ac s) (td_sh s) (td_c1 s) (td_c2 s) (td_ab s) (td_dl s) (td_st s) (td_cerr s) (td_rerr s) (td_pab s) (td_wac s) (td_connc s) (td_rfail s) (td_wfail s) (td_rdl s) (td_cwl s) (td_cwlo s) (td_rlc s) (td_acc s) v (td_abso s) (td_awake s) (td_lk s) (td_wsa s) (td_tcl s) (td_sdc s) (td_dlc s) (td_panic s) (td_injd s).
 Definition td_set_abso (v : bool) (s : td_state) : td_state :=
-  mkTd (td_rl s) (td_wl s) (td_tl s) (td_tf s) (td_cw s) (td_rd s) (td_wr s) (td_ac s) (td_sh s) (td_c1 s) (td_c2 s) (td_ab s) (td_st s) (td_cerr s) (td_rerr s) (td_pab s) (td_wac s) (td_connc s) (td_rfail s) (td_wfail s) (td_rdl s) (td_cwl s) (td_cwlo s) (td_rlc s) (td_acc s) (td_abs s) v (td_awake s) (td_lk s) (td_wsa s) (td_tcl s) (td_sdc s) (td_panic s) (td_injd s).
+  mkTd (td_rl s) (td_wl s) (td_tl s) (td_tf s) (td_cw s) (td_rd s) (td_wr s) (td_ac s) (td_sh s) (td_c1 s) (td_c2 s) (td_ab s) (td_dl s) (td_st s) (td_cerr s) (td_rerr s) (td_pab s) (td_wac s) (td_connc s) (td_rfail s) (td_wfail s) (td_rdl s) (td_cwl s) (td_cwlo s) (td_rlc s) (td_acc s) (td_abs s) v (td_awake s) (td_lk s) (td_wsa s) (td_tcl s) (td_sdc s) (td_dlc s) (td_panic s) (td_injd s).
 Definition td_set_awake (v : bool) (s : td_state) : td_state :=
-  mkTd (td_rl s) (td_wl s) (td_tl s) (td_tf s) (td_cw s) (td_rd s) (td_wr s) (td_ac s) (td_sh s) (td_c1 s) (td_c2 s) (td_ab s) (td_st s) (td_cerr s) (td_rerr s) (td_pab s) (td_wac s) (td_connc s) (td_rfail s) (td_wfail s) (td_rdl s) (td_cwl s) (td_cwlo s) (td_rlc s) (td_acc s) (td_abs s) (td_abso s) v (td_lk s) (td_wsa s) (td_tcl s) (td_sdc s) (td_panic s) (td_injd s).
+  mkTd (td_rl s) (td_wl s) (td_tl s) (td_tf s) (td_cw s) (td_rd s) (td_wr s) (td_ac s) (td_sh s) (td_c1 s) (td_c2 s) (td_ab s) (td_dl s) (td_st s) (td_cerr s) (td_rerr s) (td_pab s) (td_wac s) (td_connc s) (td_rfail s) (td_wfail s) (td_rdl s) (td_cwl s) (td_cwlo s) (td_rlc s) (td_acc s) (td_abs s) (td_abso s) v (td_lk s) (td_wsa s) (td_tcl s) (td_sdc s) (td_dlc s) (td_panic s) (td_injd s).
 Definition td_set_lk (v : bool) (s : td_state) : td_state :=
-  mkTd (td_rl s) (td_wl s) (td_tl s) (td_tf s) (td_cw s) (td_rd s) (td_wr s) (td_ac s) (td_sh s) (td_c1 s) (td_c2 s) (td_ab s) (td_st s) (td_cerr s) (td_rerr s) (td_pab s) (td_wac s) (td_connc s) (td_rfail s) (td_wfail s) (td_rdl s) (td_cwl s) (td_cwlo s) (td_rlc s) (td_acc s) (td_abs s) (td_abso s) (td_awake s) v (td_wsa s) (td_tcl s) (td_sdc s) (td_panic s) (td_injd s).
+  mkTd (td_rl s) (td_wl s) (td_tl s) (td_tf s) (td_cw s) (td_rd s) (td_wr s) (td_ac s) (td_sh s) (td_c1 s) (td_c2 s) (td_ab s) (td_dl s) (td_st s) (td_cerr s) (td_rerr s) (td_pab s) (td_wac s) (td_connc s) (td_rfail s) (td_wfail s) (td_rdl s) (td_cwl s) (td_cwlo s) (td_rlc s) (td_acc s) (td_abs s) (td_abso s) (td_awake s) v (td_wsa s) (td_tcl s) (td_sdc s) (td_dlc s) (td_panic s) (td_injd s).
 Definition td_set_wsa (v : bool) (s : td_state) : td_state :=
-  mkTd (td_rl s) (td_wl s) (td_tl s) (td_tf s) (td_cw s) (td_rd s) (td_wr s) (td_ac s) (td_sh s) (td_c1 s) (td_c2 s) (td_ab s) (td_st s) (td_cerr s) (td_rerr s) (td_pab s) (td_wac s) (td_connc s) (td_rfail s) (td_wfail s) (td_rdl s) (td_cwl s) (td_cwlo s) (td_rlc s) (td_acc s) (td_abs s) (td_abso s) (td_awake s) (td_lk s) v (td_tcl s) (td_sdc s) (td_panic s) (td_injd s).
+  mkTd (td_rl s) (td_wl s) (td_tl s) (td_tf s) (td_cw s) (td_rd s) (td_wr s) (td_ac s) (td_sh s) (td_c1 s) (td_c2 s) (td_ab s) (td_dl s) (td_st s) (td_cerr s) (td_rerr s) (td_pab s) (td_wac s) (td_connc s) (td_rfail s) (td_wfail s) (td_rdl s) (td_cwl s) (td_cwlo s) (td_rlc s) (td_acc s) (td_abs s) (td_abso s) (td_awake s) (td_lk s) v (td_tcl s) (td_sdc s) (td_dlc s) (td_panic s) (td_injd s).
 Definition td_set_tcl (v : bool) (s : td_state) : td_state :=
-  mkTd (td_rl s) (td_wl s) (td_tl s) (td_tf s) (td_cw s) (td_rd s) (td_wr s) (td_ac s) (td_sh s) (td_c1 s) (td_c2 s) (td_ab s) (td_st s) (td_cerr s) (td_rerr s) (td_pab s) (td_wac s) (td_connc s) (td_rfail s) (td_wfail s) (td_rdl s) (td_cwl s) (td_cwlo s) (td_rlc s) (td_acc s) (td_abs s) (td_abso s) (td_awake s) (td_lk s) (td_wsa s) v (td_sdc s) (td_panic s) (td_injd s).
+  mkTd (td_rl s) (td_wl s) (td_tl s) (td_tf s) (td_cw s) (td_rd s) (td_wr s) (td_ac s) (td_sh s) (td_c1 s) (td_c2 s) (td_ab s) (td_dl s) (td_st s) (td_cerr s) (td_rerr s) (td_pab s) (td_wac s) (td_connc s) (td_rfail s) (td_wfail s) (td_rdl s) (td_cwl s) (td_cwlo s) (td_rlc s) (td_acc s) (td_abs s) (td_abso s) (td_awake s) (td_lk s) (td_wsa s) v (td_sdc s) (td_dlc s) (td_panic s) (td_injd s).
 Definition td_set_sdc (v : bool) (s : td_state) : td_state :=
-  mkTd (td_rl s) (td_wl s) (td_tl s) (td_tf s) (td_cw s) (td_rd s) (td_wr s) (td_ac s) (td_sh s) (td_c1 s) (td_c2 s) (td_ab s) (td_st s) (td_cerr s) (td_rerr s) (td_pab s) (td_wac s) (td_connc s) (td_rfail s) (td_wfail s) (td_rdl s) (td_cwl s) (td_cwlo s) (td_rlc s) (td_acc s) (td_abs s) (td_abso s) (td_awake s) (td_lk s) (td_wsa s) (td_tcl s) v (td_panic s) (td_injd s).
+  mkTd (td_rl s) (td_wl s) (td_tl s) (td_tf s) (td_cw s) (td_rd s) (td_wr s) (td_ac s) (td_sh s) (td_c1 s) (td_c2 s) (td_ab s) (td_dl s) (td_st s) (td_cerr s) (td_rerr s) (td_pab s) (td_wac s) (td_connc s) (td_rfail s) (td_wfail s) (td_rdl s) (td_cwl s) (td_cwlo s) (td_rlc s) (td_acc s) (td_abs s) (td_abso s) (td_awake s) (td_lk s) (td_wsa s) (td_tcl s) v (td_dlc s) (td_panic s) (td_injd s).
+Definition td_set_dlc (v : bool) (s : td_state) : td_state :=
+  mkTd (td_rl s) (td_wl s) (td_tl s) (td_tf s) (td_cw s) (td_rd s) (td_wr s) (td_ac s) (td_sh s) (td_c1 s) (td_c2 s) (td_ab s) (td_dl s) (td_st s) (td_cerr s) (td_rerr s) (td_pab s) (td_wac s) (td_connc s) (td_rfail s) (td_wfail s) (td_rdl s) (td_cwl s) (td_cwlo s) (td_rlc s) (td_acc s) (td_abs s) (td_abso s) (td_awake s) (td_lk s) (td_wsa s) (td_tcl s) (td_sdc s) v (td_panic s) (td_injd s).
 Definition td_set_panic (v : bool) (s : td_state) : td_state :=
-  mkTd (td_rl s) (td_wl s) (td_tl s) (td_tf s) (td_cw s) (td_rd s) (td_wr s) (td_ac s) (td_sh s) (td_c1 s) (td_c2 s) (td_ab s) (td_st s) (td_cerr s) (td_rerr s) (td_pab s) (td_wac s) (td_connc s) (td_rfail s) (td_wfail s) (td_rdl s) (td_cwl s) (td_cwlo s) (td_rlc s) (td_acc s) (td_abs s) (td_abso s) (td_awake s) (td_lk s) (td_wsa s) (td_tcl s) (td_sdc s) v (td_injd s).
+  mkTd (td_rl s) (td_wl s) (td_tl s) (td_tf s) (td_cw s) (td_rd s) (td_wr s) (td_ac s) (td_sh s) (td_c1 s) (td_c2 s) (td_ab s) (td_dl s) (td_st s) (td_cerr s) (td_rerr s) (td_pab s) (td_wac s) (td_connc s) (td_rfail s) (td_wfail s) (td_rdl s) (td_cwl s) (td_cwlo s) (td_rlc s) (td_acc s) (td_abs s) (td_abso s) (td_awake s) (td_lk s) (td_wsa s) (td_tcl s) (td_sdc s) (td_dlc s) v (td_injd s).
 Definition td_set_injd (v : bool) (s : td_state) : td_state :=
-  mkTd (td_rl s) (td_wl s) (td_tl s) (td_tf s) (td_cw s) (td_rd s) (td_wr s) (td_ac s) (td_sh s) (td_c1 s) (td_c2 s) (td_ab s) (td_st s) (td_cerr s) (td_rerr s) (td_pab s) (td_wac s) (td_connc s) (td_rfail s) (td_wfail s) (td_rdl s) (td_cwl s) (td_cwlo s) (td_rlc s) (td_acc s) (td_abs s) (td_abso s) (td_awake s) (td_lk s) (td_wsa s) (td_tcl s) (td_sdc s) (td_panic s) v.
+  mkTd (td_rl s) (td_wl s) (td_tl s) (td_tf s) (td_cw s) (td_rd s) (td_wr s) (td_ac s) (td_sh s) (td_c1 s) (td_c2 s) (td_ab s) (td_dl s) (td_st s) (td_cerr s) (td_rerr s) (td_pab s) (td_wac s) (td_connc s) (td_rfail s) (td_wfail s) (td_rdl s) (td_cwl s) (td_cwlo s) (td_rlc s) (td_acc s) (td_abs s) (td_abso s) (td_awake s) (td_lk s) (td_wsa s) (td_tcl s) (td_sdc s) (td_dlc s) (td_panic s) v.
 
 Definition td_bool_enc (b : bool) (p : positive) : positive := if b then xI p else xO p.
 (* injective key of a state: the fields' fixed-width codes, one after the other *)
@@ -332,6 +346,7 @@ Definition td_enc (s : td_state) : positive :=
   (td_ccpc_enc (td_c1 s)
   (td_ccpc_enc (td_c2 s)
   (td_abpc_enc (td_ab s)
+  (td_dlpc_enc (td_dl s)
   (td_ast_enc (td_st s)
   (td_err_enc (td_cerr s)
   (td_err_enc (td_rerr s)
@@ -352,9 +367,10 @@ Definition td_enc (s : td_state) : positive :=
   (td_bool_enc (td_wsa s)
   (td_bool_enc (td_tcl s)
   (td_bool_enc (td_sdc s)
+  (td_bool_enc (td_dlc s)
   (td_bool_enc (td_panic s)
   (td_bool_enc (td_injd s)
-  (xH)))))))))))))))))))))))))))))))))).
+  (xH)))))))))))))))))))))))))))))))))))).
 (* ------------------------------------------------------------------------------------------
    Shared-state helpers
    ------------------------------------------------------------------------------------------ *)
@@ -383,6 +399,12 @@ Definition td_close_eff (k : td_cl) (s : td_state) : td_state :=
 Definition td_unblock_writers (s : td_state) :=
   match td_wr s with TdWrBlocked => td_set_wr TdWrWoken s | _ => s end.
 
+(* if s.readTimeoutCancel != nil { close(s.readTimeoutCancel); s.readTimeoutCancel = nil }: in unregisterStream
+   (fix 2bd54a4) and in ReadSCTP's deferred function when it returns with readErr set; the nil check under
+   s.lock makes a second close impossible *)
+Definition td_cancel_deadline (s : td_state) :=
+  match td_dl s with TdDlArmed => td_set_dlc true s | _ => s end.
+
 (* s.readNotifier.Broadcast(): a parked reader re-evaluates its wait condition *)
 Definition td_broadcast (s : td_state) :=
   match td_rd s with TdRdParked => td_set_rd TdRdCheck s | _ => s end.
@@ -397,7 +419,7 @@ Inductive td_inj := TdInjClose | TdInjAbort | TdInjRfail | TdInjWfail | TdInjPee
 
 (* which API call is blocked on the association when the run starts (during the handshake the
    Client/Server call is always there) *)
-Inductive td_mix := TdMixNone | TdMixReader | TdMixWriter | TdMixAcceptor | TdMixShutdown.
+Inductive td_mix := TdMixNone | TdMixReader | TdMixWriter | TdMixAcceptor | TdMixShutdown | TdMixDeadline.
 
 Record td_cfg := mkTdCfg {
   td_c_phase : td_phase;   (* phase of the association when the run starts *)
@@ -498,7 +520,7 @@ Definition td_read (s : td_state) : list td_state :=
   | TdRlX1 => [td_set_rl TdRlX2 (td_once_cwl s)]
   | TdRlX2 => if td_lk s then [] else [td_set_rl TdRlX3 (td_set_lk true s)]
   | TdRlX3 => [td_set_rl TdRlX4 (td_set_st TdStClosed s)]
-  | TdRlX4 => [td_set_rl TdRlX5 (td_broadcast (td_set_rerr (td_cerr s) s))]
+  | TdRlX4 => [td_set_rl TdRlX5 (td_broadcast (td_cancel_deadline (td_set_rerr (td_cerr s) s)))]
   | TdRlX5 => [td_set_rl TdRlX6 (td_set_lk false (td_unblock_writers s))]
   | TdRlX6 => [td_set_rl TdRlX7 (td_close_ch_acc s)]
   | TdRlX7 => [td_set_rl TdRlDone (td_close_ch_rlc s)]
@@ -615,11 +637,18 @@ Definition td_connect (s : td_state) : list td_state :=
 Definition td_reader (s : td_state) : list td_state :=
   match td_rd s with
   | TdRdCheck =>
-      [td_set_rd (match td_rerr s with
-                  | TdCeNone => TdRdParked | TdCeRead => TdRdRetRead
-                  | TdCeAbort0 => TdRdRetAb0 | TdCeAbort1 => TdRdRetAb1 end) s]
+      [match td_rerr s with
+       | TdCeNone => td_set_rd TdRdParked s
+       | TdCeRead => td_cancel_deadline (td_set_rd TdRdRetRead s)
+       | TdCeAbort0 => td_cancel_deadline (td_set_rd TdRdRetAb0 s)
+       | TdCeAbort1 => td_cancel_deadline (td_set_rd TdRdRetAb1 s)
+       end]
   | _ => []
   end.
+
+(* the goroutine of Stream.SetReadDeadline: select { <-readTimeoutCancel: return | <-t.C: ... } *)
+Definition td_deadline (s : td_state) : list td_state :=
+  match td_dl s with TdDlArmed => if td_dlc s then [td_set_dl TdDlDone s] else [] | _ => [] end.
 
 (* sendPayloadData in blocking-write mode after the wait on writeNotify: re-lock, re-check the state *)
 Definition td_writer (s : td_state) : list td_state :=
@@ -677,7 +706,7 @@ Definition td_abort_caller (s : td_state) : list td_state :=
 
 Inductive td_actor :=
   TdAEnv | TdARead | TdAWrite | TdATimerLoop | TdATimerCb | TdAT1Fail | TdAConnect | TdAReader | TdAWriter
-  | TdAAcceptor | TdAShutdown | TdAClose1 | TdAClose2 | TdAAbort.
+  | TdAAcceptor | TdAShutdown | TdAClose1 | TdAClose2 | TdAAbort | TdADeadline.
 
 Definition td_tag (a : td_actor) (l : list td_state) : list (td_actor * td_state) := map (fun s => (a, s)) l.
 
@@ -687,7 +716,7 @@ Definition td_steps (c : td_cfg) (s : td_state) : list (td_actor * td_state) :=
   td_tag TdAConnect (td_connect s) ++ td_tag TdAReader (td_reader s) ++ td_tag TdAWriter (td_writer s) ++
   td_tag TdAAcceptor (td_acceptor s) ++ td_tag TdAShutdown (td_shutdown s) ++
   td_tag TdAClose1 (td_close_caller td_c1 td_set_c1 s) ++ td_tag TdAClose2 (td_close_caller td_c2 td_set_c2 s) ++
-  td_tag TdAAbort (td_abort_caller s).
+  td_tag TdAAbort (td_abort_caller s) ++ td_tag TdADeadline (td_deadline s).
 
 Definition td_step (c : td_cfg) (s : td_state) : list td_state := map snd (td_steps c s).
 
@@ -704,8 +733,11 @@ Definition td_init (c : td_cfg) : td_state :=
   let ac := match td_c_mix c with TdMixAcceptor => TdAcWait | _ => TdAcNone end in
   (* Shutdown() blocks only if it found the association established; it left it in shutdownPending/Sent *)
   let sh := match td_c_mix c, td_c_phase c with TdMixShutdown, TdPhSd => TdShWait | _, _ => TdShNone end in
-  mkTd TdRlRead TdWlGather false TdTfIdle cw rd wr ac sh TdCcNone TdCcNone TdAbNone st TdCeNone TdCeNone TdCeNone TdCnt0
-       false false false false false false false false false false false false false false false false false.
+  (* a stream with an armed read deadline and nobody reading: the goroutine started by SetReadDeadline waits
+     for its cancel channel (or for a deadline that does not expire during the run) *)
+  let dl := match td_c_mix c with TdMixDeadline => TdDlArmed | _ => TdDlNone end in
+  mkTd TdRlRead TdWlGather false TdTfIdle cw rd wr ac sh TdCcNone TdCcNone TdAbNone dl st TdCeNone TdCeNone TdCeNone TdCnt0
+       false false false false false false false false false false false false false false false false false false.
 
 (* ------------------------------------------------------------------------------------------
    State predicates
@@ -724,7 +756,8 @@ Definition td_done (s : td_state) : bool :=
   (match td_sh s with TdShWait | TdShWoken => false | _ => true end) &&
   (match td_c1 s with TdCcNone | TdCcRet => true | _ => false end) &&
   (match td_c2 s with TdCcNone | TdCcRet => true | _ => false end) &&
-  (match td_ab s with TdAbNone | TdAbRet => true | _ => false end).
+  (match td_ab s with TdAbNone | TdAbRet => true | _ => false end) &&
+  (match td_dl s with TdDlArmed => false | _ => true end).
 
 Definition td_is_nil {A} (l : list A) : bool := match l with [] => true | _ => false end.
 
@@ -929,8 +962,12 @@ Definition td_families : list td_cfg := flat_map td_families_of td_phases.
    Close() after or during a transport failure, an Abort(), an inbound ABORT; two concurrent Close()),
    in the other phases with a first Close() *)
 Definition td_families_close2 : list td_cfg :=
-  map (fun i => mkTdCfg TdPhEst i TdMixNone false true) td_injs ++
+  map (fun i => mkTdCfg TdPhEst i TdMixNone false true) [TdInjClose; TdInjAbort; TdInjRfail; TdInjWfail] ++
   [mkTdCfg TdPhHs TdInjClose TdMixNone false true; mkTdCfg TdPhSd TdInjClose TdMixNone false true].
+
+(* established, a read deadline armed on a stream with nobody reading: its goroutine must end with the
+   association (fix 2bd54a4: unregisterStream cancels it) *)
+Definition td_families_deadline : list td_cfg := map (fun i => mkTdCfg TdPhEst i TdMixDeadline false false) td_injs.
 
 (* handshake with T1 exhaustion *)
 Definition td_families_t1 : list td_cfg := map (fun i => mkTdCfg TdPhHs i TdMixNone true false) td_injs.
@@ -939,9 +976,9 @@ Definition td_families_t1 : list td_cfg := map (fun i => mkTdCfg TdPhHs i TdMixN
    Outcome table for the comparison with the implementation
    ------------------------------------------------------------------------------------------ *)
 
-Definition td_outcome := (td_err * td_cwpc * td_rdpc * td_wrpc * td_acpc * td_shpc * bool)%type.
+Definition td_outcome := (td_err * td_cwpc * td_rdpc * td_wrpc * td_acpc * td_shpc * bool * td_dlpc)%type.
 Definition td_outcome_of (s : td_state) : td_outcome :=
-  (td_pab s, td_cw s, td_rd s, td_wr s, td_ac s, td_sh s, td_sdc s).
+  (td_pab s, td_cw s, td_rd s, td_wr s, td_ac s, td_sh s, td_sdc s, td_dl s).
 
 (* outcomes of the blocked callers in the final states (no step enabled) of a family *)
 Definition td_final_outcomes (c : td_cfg) : list td_outcome :=
